@@ -409,7 +409,12 @@ fn fatal_key(prop: &str, f: &Fatal) -> String {
         let msg = parts.next().unwrap_or("");
         let file = loc.rsplit('/').next().unwrap_or(loc).split(':').next().unwrap_or("");
         let msg: String = msg.chars().filter(|c| c.is_ascii_alphanumeric() || *c == ' ').take(48).collect();
-        format!("{}:{}:{}:{}", prop, f.tag, file, msg.trim().replace(' ', "_"))
+        let key = format!("{}:{}:{}:{}", prop, f.tag, file, msg.trim().replace(' ', "_"));
+        if f.history.is_empty() {
+            key
+        } else {
+            format!("{}:after-{}", key, f.history)
+        }
     } else {
         format!("{}:{}", prop, f.tag)
     }
